@@ -201,6 +201,13 @@ def extract_writer(p: Program, rep: Report, rule: str) -> CookieWriter:
         table = F.module_const(DS, tname)
     except NotConst as e:
         raise Undecided(f"{rule}: translator table is not a foldable constant ({e})")
+    if isinstance(table, dict) and table and any(isinstance(k, str) for k in table):
+        # str.translate looks entries up by CODE POINT (int): a table keyed by characters is never consulted
+        bad_k = next(k for k in table if isinstance(k, str))
+        rep.violation(rule, construct(f"{DS}:{tname}", text="translation table keyed by characters"), f"{mod.relpath}:{mod.constants[tname].lineno}",
+                      f"the cookie escape table {tname} has str keys ({bad_k!r}, ...): str.translate() looks code points up as ints, so no character is ever escaped - "
+                      "a value containing ';', CR, LF or NUL is emitted raw inside the quotes")
+        raise Undecided(f"{rule}: table check not continued with a translation table that str.translate never consults")
     if not isinstance(table, dict) or not all(isinstance(k, int) and isinstance(x, str) for k, x in table.items()):
         raise Undecided(f"{rule}: translator table is not a dict[int, str]")
     legal_name = "_cookie_legal_chars" if "_cookie_legal_chars" in mod.constants else (pred_name if pred_name in mod.constants else next(iter(mod.constants)))
